@@ -7,7 +7,7 @@ executable `checkProgram`); soundness lemmas: Lemmas/Crash.lean; theorems: Props
 Tie:
   * translate(): runs every fixed scenario's REAL operation once on a scratch repository under a system-call
     recorder (harness/sched.py), canonicalises the mutating calls (object ids -> o<n>, temp/lock names ->
-    tmp<n>, pack names -> p<n>, refs -> r<n>) and emits them as Lean terms (Gen/Traces.lean) with one
+    tmp<n>, pack names -> p<n>, refs -> r<n>; the `shallow` file is part of the state) and emits them as Lean terms (Gen/Traces.lean) with one
     `checkProgram … = true := by decide +kernel` obligation per scenario (Gen/TracesChecked.lean, imported by
     Props/C09.lean) — `= false` plus a `decide`d counterexample prefix where the REAL crash states of a
     scenario violate the property (none on the current tree: the two F8 windows were fixed by /repo bb5afda;
@@ -756,6 +756,80 @@ def _sc_fetch():
     return build, op
 
 
+class _Served:
+    """The source repository served over a smart transport by dulwich's own servers (in a thread of this process;
+    the recorder only watches the fetching repository, and only the main thread)."""
+
+    def __init__(self, kind, src):
+        import threading
+        self.kind = kind
+        if kind == "tcp":
+            from dulwich.server import DictBackend, TCPGitServer
+            self.srv = TCPGitServer(DictBackend({b"/": src}), "127.0.0.1", 0)
+        else:
+            from wsgiref.simple_server import make_server
+            from dulwich.server import DictBackend
+            from dulwich.web import WSGIRequestHandlerLogger, WSGIServerLogger, make_wsgi_chain
+            app = make_wsgi_chain(DictBackend({"/": src}))
+            self.srv = make_server("127.0.0.1", 0, app, handler_class=WSGIRequestHandlerLogger,
+                                   server_class=WSGIServerLogger)
+        self.port = self.srv.server_address[1]
+        self.t = threading.Thread(target=self.srv.serve_forever, kwargs={"poll_interval": 0.05}, daemon=True)
+        self.t.start()
+
+    def client_and_path(self):
+        if self.kind == "tcp":
+            from dulwich.client import TCPGitClient
+            return TCPGitClient("127.0.0.1", port=self.port), "/"
+        from dulwich.client import HttpGitClient
+        return HttpGitClient(f"http://127.0.0.1:{self.port}/"), "/"
+
+    def close(self):
+        self.srv.shutdown()
+        self.srv.server_close()
+        self.t.join(5)
+
+
+def _sc_shallow(transport, phase, via_porcelain=False):
+    """Depth-limited fetches over a smart transport: `initial` (depth 1 into an empty repository), `deepen`
+    (a depth-1 clone fetched again with depth 3: the server answers `shallow c1` + `unshallow c3`), `unshallow`
+    (depth larger than the history: `unshallow c3`, the shallow file disappears).  4-commit history."""
+    def fetcher(st):
+        if transport == "subprocess":
+            from dulwich.client import SubprocessGitClient
+            return SubprocessGitClient(), st["src"].path
+        if transport == "local":
+            from dulwich.client import LocalGitClient
+            return LocalGitClient(), st["src"].path
+        if "served" not in st:
+            st["served"] = _Served(transport, st["src"])
+        return st["served"].client_and_path()
+
+    def build(p):
+        src = _init(os.path.join(os.path.dirname(p), os.path.basename(p) + "-src"))
+        cs = [commit_files(src, {"a.txt": (f"line {i}\n" * (i + 3)).encode(), f"f{i}.txt": f"file {i}\n".encode()},
+                           b"c%d" % i, T0 + i) for i in range(4)]
+        st = {"src": src, "r": _init(p), "cs": cs}
+        if phase != "initial":
+            c, path = fetcher(st)
+            res = c.fetch(path, st["r"], depth=1)
+            st["r"].refs[b"refs/remotes/origin/main"] = res.refs[b"refs/heads/main"]
+            st["r"].refs[b"refs/heads/main"] = res.refs[b"refs/heads/main"]
+        return st
+
+    def op(st):
+        c, path = fetcher(st)
+        depth = {"initial": 1, "deepen": 3, "unshallow": 10}[phase]
+        res = c.fetch(path, st["r"], depth=depth)
+        tip = res.refs[b"refs/heads/main"]
+        via = type(c).__name__ + ".fetch"
+        if phase == "initial":
+            st["r"].refs.set_if_equals(b"refs/remotes/origin/main", None, tip)
+            return {"refs": {"refs/remotes/origin/main": tip.decode()}, "plain": set(), "via": via}
+        return {"refs": {}, "plain": set(), "via": via}
+    return build, op
+
+
 def _sc_repack(shape, which, fsync=False):
     def build(p):
         st = _base(p, shape, fsync=fsync)
@@ -878,6 +952,9 @@ def fixed_scenarios() -> list[Scn]:
     add("receive_pack_handler_mixed", "receive_pack", _sc_thin_pack("mixed", True))
     add("receive_pack_handler_fsync", "receive_pack", _sc_thin_pack("loose", True, fsync=True))
     add("fetch_local", "receive_pack", _sc_fetch())
+    for tr in ("subprocess", "tcp", "http", "local"):
+        for ph in ("initial", "deepen", "unshallow"):
+            add(f"shallow_{ph}_{tr}", "shallow_fetch", _sc_shallow(tr, ph))
     add("pack_loose_objects_loose", "pack_loose", _sc_repack("loose", "pack_loose"))
     add("pack_loose_objects_mixed", "pack_loose", _sc_repack("mixed", "pack_loose"))
     add("repack_loose", "repack", _sc_repack("loose", "repack"))
@@ -927,7 +1004,8 @@ def record(scn: Scn, workdir: str) -> Rec:
         with sr:
             intent = scn.op(st)
             sr.finish()
-        for v in st.values():
+        for k in sorted(st, key=lambda k: k != "served"):     # the server thread first
+            v = st[k]
             if hasattr(v, "close"):
                 try:
                     v.close()
@@ -984,9 +1062,10 @@ def _hash_ok(sha: str, tnum: int, raw: bytes) -> bool:
     return t is not None and hashlib.sha1(t + b" %d\x00" % len(raw) + raw).hexdigest() == sha
 
 
-def real_closure(store, roots, problems=None, what=""):
+def real_closure(store, roots, problems=None, what="", get_parents=None):
     """{hex: (type_num, raw)} of everything reachable from `roots`, read through the real object store and
-    re-hashed independently.  Unreadable / corrupt objects are appended to `problems`."""
+    re-hashed independently.  Commit parents are asked from the REAL code (`get_parents` = `Repo.get_parents`,
+    which honours `.git/shallow` and grafts).  Unreadable / corrupt objects are appended to `problems`."""
     seen, todo = {}, list(roots)
     while todo:
         sha = todo.pop()
@@ -1009,7 +1088,16 @@ def real_closure(store, roots, problems=None, what=""):
             continue
         seen[sha] = (tnum, raw)
         try:
-            todo += object_edges(TYPE_NAMES[tnum].decode(), raw)
+            deps, parents = object_edges(TYPE_NAMES[tnum].decode(), raw, split=True)
+            if tnum == 1 and get_parents is not None:
+                try:
+                    parents = [x.decode() for x in get_parents(sha.encode())]
+                except BaseException as e:  # noqa: BLE001
+                    if isinstance(e, (KeyboardInterrupt, SystemExit)):
+                        raise
+                    if problems is not None:
+                        problems.append(("history-walk-fails", f"{what}get_parents({sha}): {type(e).__name__}: {str(e)[:80]}", sha))
+            todo += deps + parents
         except (ValueError, IndexError):
             if problems is not None:
                 problems.append(("object-corrupt", f"{what}{sha}: unparsable {TYPE_NAMES[tnum].decode()}", sha))
@@ -1028,7 +1116,7 @@ class Before:
         r = R.Repo(rec.start_copy)
         try:
             roots = [v.decode() for v in self.old_refs.values() if v and HEX40.match(v)]
-            self.old_closure = real_closure(r.object_store, roots)
+            self.old_closure = real_closure(r.object_store, roots, get_parents=r.get_parents)
         finally:
             r.close()
         self.plain_old = {n: rec.start_files.get(n) for n in ("index", "config")}
@@ -1089,8 +1177,18 @@ def oracle(rec: Rec, bf: Before, state_dir: str, thorough: bool, obs: dict | Non
         # every ref names an object that is present and intact (with everything it reaches)
         roots = sorted({v.decode() for v in cur.values() if v and HEX40.match(v)})
         pr = []
-        real_closure(r.object_store, roots, pr, "reachable from a ref: ")
+        cl_now = real_closure(r.object_store, roots, pr, "reachable from a ref: ", get_parents=r.get_parents)
         out += pr
+        # … and the real history walker gets through every ref's history (honouring .git/shallow)
+        tips = [h.encode() for h in roots if cl_now.get(h) and cl_now[h][0] == 1]
+        if tips:
+            try:
+                for _ in r.get_walker(include=tips):
+                    pass
+            except BaseException as e:  # noqa: BLE001
+                if isinstance(e, (KeyboardInterrupt, SystemExit)):
+                    raise
+                out.append(("history-walk-fails", f"Repo.get_walker over the refs: {type(e).__name__}: {str(e)[:100]}", None))
         # every object reachable before is still readable, with the same bytes
         for sha, old in bf.old_closure.items():
             if old is None:
@@ -1164,8 +1262,8 @@ def oracle(rec: Rec, bf: Before, state_dir: str, thorough: bool, obs: dict | Non
             r.close()
         except Exception:
             pass
-    if thorough:
-        rc, txt = core.sh(["git", "-C", state_dir, "fsck", "--no-dangling", "--no-progress"],
+    if thorough or rec.scn.kind == "shallow_fetch":
+        rc, txt = core.sh(["git", "-C", state_dir, "fsck", "--full", "--no-dangling", "--no-progress"],
                           env=core.clean_env({"GIT_CONFIG_GLOBAL": "/dev/null"}), timeout=120)
         if rc != 0:
             out.append(("git-fsck", txt.strip().replace("\n", " | ")[:300], None))
@@ -1186,6 +1284,14 @@ def classify(rec: Rec, j: int, clause: str, subject, state_files: dict) -> str:
                 and state_files.get("packed-refs") == rec.start_files.get("packed-refs"):
             # … under the packed-refs lock, and the new packed-refs has not been renamed in yet
             return "pack-refs-crash-after-loose-unlink"
+    if clause in ("object-unreadable", "history-walk-fails", "git-fsck") and rec.intent.get("via") == "LocalGitClient.fetch":
+        # the LOCAL fetch path (Repo.fetch -> find_missing_objects -> graph_walker.update_shallow) rewrites the
+        # target's shallow file before the pack exists: the shallow set has shrunk, no new pack index is in place
+        old = set(parse_shallow(rec.start_files.get("shallow", b"")) or [])
+        now = set(parse_shallow(state_files.get("shallow", b"")) or [])
+        idx = lambda fs: {f for f in fs if f.startswith("objects/pack/") and f.endswith(".idx")}  # noqa: E731
+        if old - now and idx(state_files) == idx(rec.start_files):
+            return "local-fetch-shallow-shrunk-before-pack"
     return f"{rec.scn.kind}:{clause}"
 
 
@@ -1196,8 +1302,9 @@ class Canon:
     """Numbering of object ids, refs, packs, checksums, temp names, other paths of ONE scenario, and the
     model terms built with it.  Terms are small tuples; `lean_*`/`tok_*` render them."""
 
-    def __init__(self, rec: Rec):
+    def __init__(self, rec: Rec, calls=None):
         self.rec = rec
+        calls = rec.calls if calls is None else calls
         objs, refs, packs, others = set(), {"HEAD"}, set(), set()
         tmps, sums, blobs = [], [], []      # numbered by first appearance (their bytes vary from run to run)
 
@@ -1255,7 +1362,7 @@ class Canon:
             see_content(c)
             self.start[rel] = c
         self.prog = []
-        for call in rec.calls:
+        for call in calls:
             if call[0] == "write":
                 k = see_path(call[1])
                 c = content_of(call[1], call[2])
@@ -1527,19 +1634,50 @@ class Canon:
 
 
 def normalise_runs(calls: list) -> list:
-    """Maximal runs of consecutive `unlink` calls in canonical order.  dulwich iterates Python sets (and
-    os.listdir results) when it deletes loose refs / loose objects, so the order inside such a run is not
-    fixed by the code (it changes with PYTHONHASHSEED); the generated Lean term uses the sorted order so
-    that the text is stable from run to run.  run() checks the order that actually happened."""
-    out, runb = [], []
-    for c in calls + [None]:
-        if c is not None and c[0] == "unlink":
-            runb.append(c)
+    """Canonical order for the parts of a recorded program whose order the code does not fix: dulwich iterates
+    Python sets / dicts keyed by bytes (and os.listdir results) when it deletes loose refs and loose objects, so
+    the order changes with PYTHONHASHSEED.  Works on the RAW calls (paths relative to the control directory):
+      * maximal runs of consecutive `unlink` calls are sorted by path;
+      * maximal runs of consecutive blocks `create <x>.lock; [unlink <x>;] unlink <x>.lock` (a loose ref removed
+        under its own lock, as add_packed_refs does for each packed ref) are sorted by <x>.
+    The generated Lean term uses this order so that its text is stable from run to run; run() checks the
+    order that actually happened."""
+    def block_at(i):
+        if 0 <= i and i + 1 < len(calls):
+            a = calls[i]
+            if a[0] == "write" and a[2] == b"" and a[1].endswith(".lock"):
+                if calls[i + 1] == ("unlink", a[1]):                       # locked, nothing to remove, unlocked
+                    return calls[i:i + 2]
+                if i + 2 < len(calls) and calls[i + 1] == ("unlink", a[1][:-5]) and calls[i + 2] == ("unlink", a[1]):
+                    return calls[i:i + 3]
+        return None
+
+    def in_block(j):
+        return any((blk := block_at(k)) is not None and k + len(blk) > j for k in (j - 2, j - 1))
+    out, i = [], 0
+    while i < len(calls):
+        blocks = []
+        j = i
+        while True:
+            blk = block_at(j)
+            if blk is None:
+                break
+            blocks.append(blk)
+            j += len(blk)
+        if blocks:
+            for blk in sorted(blocks, key=lambda x: x[0][1]):
+                out += blk
+            i = j
             continue
-        out += sorted(runb, key=lambda x: (x[1][0], x[1][1:] ))
-        runb = []
-        if c is not None:
-            out.append(c)
+        if calls[i][0] == "unlink":
+            j = i
+            while j < len(calls) and calls[j][0] == "unlink" and not in_block(j):
+                j += 1
+            out += sorted(calls[i:j], key=lambda x: x[1])
+            i = j
+            continue
+        out.append(calls[i])
+        i += 1
     return out
 
 
@@ -1623,16 +1761,15 @@ def translate(repo: Path) -> dict:
           "the recorded prefix refutes the ref clause of `Recoverable`. -/", "",
           "namespace Dulwich.Gen.TracesChecked", "open Dulwich.Crash Dulwich.Gen.Traces", ""]
     safe, unsafe = [], []
-    for name, (rec, cn, ev) in fixed.items():
-        calls = normalise_runs(cn.calls)
-        saved = cn.calls
-        cn.calls = calls
+    for name, (rec, cn_actual, ev) in fixed.items():
+        with hermetic(Path(os.path.dirname(rec.root)) / "home"):
+            cn = Canon(rec, normalise_runs(rec.calls))
+        calls = cn.calls
         tr.append(f"/-- scenario `{name}` ({rec.scn.kind}): start state and intent -/")
         tr.append(f"def {name}_spec : Spec :=\n  {cn.lean_spec()}")
         tr.append(f"/-- scenario `{name}`: the recorded mutating calls -/")
         tr.append(f"def {name}_prog : List Call := {cn.lean_prog()}")
         tr.append("")
-        cn.calls = saved
         if not ev.failures:
             safe.append(name)
             ck.append(f"theorem {name}_checked : checkProgram {name}_spec {name}_prog = true := by decide +kernel")
